@@ -167,6 +167,14 @@ impl Prop for C09 {
                 for (x, y) in [("50", "10"), ("300", "10"), ("-40", "-40"), ("0.5", "98.6"), ("1e30", "1")] {
                     for op in ["+", "-"] {
                         sink(Case::with("sum", format!("{x} {a} {op} {y} {b}"), serde_json::json!({"x": x, "y": y, "a": ka.to_string(), "b": kb.to_string(), "op": op})));
+                        // ... and the sum or difference converted afterwards: a conversion applies to
+                        // the magnitude computed, however it was written (`to` binds loosest, so the
+                        // parentheses are optional)
+                        for (t, kt) in sym_scales {
+                            let d = serde_json::json!({"x": x, "y": y, "a": ka.to_string(), "b": kb.to_string(), "op": op, "t": kt.to_string()});
+                            sink(Case::with("sum-cast", format!("({x} {a} {op} {y} {b}) to {t}"), d.clone()));
+                            sink(Case::with("sum-cast", format!("{x} {a} {op} {y} {b} to {t}"), d));
+                        }
                     }
                 }
             }
@@ -225,6 +233,27 @@ impl Prop for C09 {
                 }
                 Ok(Res::Err { msg, .. }) => fw::fail(format!("sum:{a}{b}:refused"), format!("{q}: refused: {msg}")),
                 Err(why) => fw::fail("results:sum", format!("{q}: {why}")),
+            };
+        }
+        if case.fam == "sum-cast" {
+            let ch = |k: &str| case.data[k].as_str().unwrap().chars().next().unwrap();
+            let (a, b, t) = (ch("a"), ch("b"), ch("t"));
+            let x = ref_decimal(case.data["x"].as_str().unwrap()).unwrap();
+            let y_in_a = from_k(&to_k(&ref_decimal(case.data["y"].as_str().unwrap()).unwrap(), b), a);
+            let sum = if case.data["op"] == "+" { &x + &y_in_a } else { &x - &y_in_a };
+            let want = from_k(&to_k(&sum, a), t);
+            return match obs::eval_one(env.db(), q) {
+                Ok(Res::Ok { value, unit, unit_text }) => {
+                    if unit.len() != 1 || unit[0].1 != 1 || unit[0].2 != 0 || scale_of_key(&unit[0].0) != Some(t) {
+                        return fw::fail(format!("sum-cast:{a}{b}->{t}:unit"), format!("{q}: result is not on the target scale: [{unit_text}]"));
+                    }
+                    if value != want {
+                        return fw::fail(format!("sum-cast:{a}{b}->{t}:value"), format!("{q}: the sum is {sum} on the left operand's scale, which is {want} on the target scale; got {value}"));
+                    }
+                    fw::pass(a != t, fw::hash_str(&want.to_string()))
+                }
+                Ok(Res::Err { msg, .. }) => fw::fail(format!("sum-cast:{a}{b}->{t}:refused"), format!("{q}: refused: {msg}")),
+                Err(why) => fw::fail("results:sum-cast", format!("{q}: {why}")),
             };
         }
         if case.fam == "multi-res" || case.fam == "multi-sub" {
